@@ -748,15 +748,6 @@ class TVGNode():
             left_offset = v.location.start % 3
         lhs = v.variant.location.start - left_offset
 
-        if v.variant.is_snv() and self.has_other_variant_in_codon(i):
-            # Another variant shares the codon, so the codon of the unmodified
-            # transcript is not what this SNV changes. Revert only this SNV.
-            lhs = v.location.start - left_offset
-            seq = self.seq.seq[lhs:v.location.start] + Seq(v.variant.ref) \
-                + self.seq.seq[v.location.end:lhs + 3]
-            seq = seq[:len(seq) - len(seq) % 3]
-            return seq.translate(to_stop=False)
-
         seq = Seq('')
         if v.variant.type in ['Deletion', 'Substitution']:
             seq += tx_seq[v.variant.location.start:v.variant.location.end]
@@ -771,6 +762,20 @@ class TVGNode():
 
         if rhs > v.variant.location.end:
             seq += tx_seq[v.variant.location.end:rhs]
+        seq = seq[:len(seq) - len(seq) % 3]
+        return seq.translate(to_stop=False)
+
+    def get_ith_variant_local_ref_aa(self, i:int) -> Seq:
+        """ For an SNV that shares its codon with another variant of the node,
+        get the amino acid of that codon with only this SNV reverted. Returns
+        None otherwise. The codon of the unmodified transcript is not what
+        the SNV changes in that case. """
+        v = self.variants[i]
+        if not v.variant.is_snv() or not self.has_other_variant_in_codon(i):
+            return None
+        lhs = v.location.start - v.location.start % 3
+        seq = self.seq.seq[lhs:v.location.start] + Seq(v.variant.ref) \
+            + self.seq.seq[v.location.end:lhs + 3]
         seq = seq[:len(seq) - len(seq) % 3]
         return seq.translate(to_stop=False)
 
@@ -827,10 +832,14 @@ class TVGNode():
                 continue
             ref_aa = self.get_ith_variant_ref_aa(i, tx_seq)
             var_aa = self.get_ith_variant_var_aa(i)
+            local_ref_aa = self.get_ith_variant_local_ref_aa(i)
             if not cds_end:
-                v.is_silent = v.variant.is_snv() and ref_aa == var_aa
+                v.is_silent = v.variant.is_snv() and ref_aa == var_aa \
+                    and (local_ref_aa is None or local_ref_aa == var_aa)
             v.is_stop_altering = \
                 (v.variant.is_snv() and ref_aa == '*' and var_aa != '*') \
+                or (local_ref_aa is not None and local_ref_aa == '*'
+                    and var_aa != '*') \
                 or (v.variant.is_insertion() and ref_aa =='*'
                     and not var_aa.startswith('*')) \
                 or (v.variant.is_deletion() and '*' in ref_aa
